@@ -148,6 +148,18 @@ def cases(tier, seed):
                          **({"min_preconditioning_size": 1, "max_preconditioner_size": rnd.choice([5, 15])} if j % 2 else {})},
             "seed": rnd.randrange(10**6),
         }
+    # size thresholds hit exactly and missed by one: max_cholesky_size equal to / one below the training size, the test size
+    # and the joint size; max_eager_kernel_size equal to the joint size. Whatever algorithm each side of a threshold selects,
+    # the result is the closed form (iterative tier whenever some solve may be iterative)
+    for j in range(16 if tier == "quick" else 200):
+        n_, ns_ = rnd.choice([(9, 4), (12, 12), (7, 9)])
+        yield {
+            "kernel": rnd.choice([KERNELS[0], KERNELS[2], KERNELS[3], KERNELS[4]]), "mean": rnd.choice(MEANS), "lik": rnd.choice(["gauss", "fixed", "fixed+learn"]), "n": n_, "d": 2, "ns": ns_,
+            "pbatch": [], "xbatch": [], "tbatch": [], "threshold": rnd.choice(["n", "n-1", "ns", "ns-1", "joint", "joint-1"]),
+            "settings": {"lazily_evaluate_kernels": rnd.random() < 0.7, "max_eager_kernel_size": rnd.choice(["equal", "above", "below"]), "max_cholesky_size": 800, "fast_pred_var": False,
+                         "detach_test_caches": rnd.random() < 0.5},
+            "seed": rnd.randrange(10**6),
+        }
     # an exact prediction after a LOW-RANK fast-variance prediction on the same model (its root caches stay behind)
     for j in range(6 if tier == "quick" else 60):
         yield {
@@ -240,17 +252,19 @@ def _post_call(a, k, out, tok):
             S_ = model.likelihood(base, Xe).covariance_matrix - base.covariance_matrix
         mxf, msf, yf = mx, ms, y
     ref_mean, ref_cov, alpha, A = util.dense_conditional(Kxx, Ksx, Kss, mxf, msf, S_, yf)
-    iterative = sd.get("max_cholesky_size") == 0
+    iterative = sd.get("max_cholesky_size") == 0 or bool(case.get("threshold"))
     # LOVE from a Lanczos root: with a separated spectrum (see below) it is as exact as the CG solves (observed 1e-7);
     # the Kronecker multitask operators keep the loose tier (their Lanczos branch is a recorded linear_operator finding)
     tol = ("lanczos" if sd.get("fast_pred_var") and mt else "iter") if iterative else "direct"
     if not iterative and _has_matern05(case["kernel"]):
         # exp(-d) is not smooth at d=0: sqrt of the 1e-16 rounding noise of a squared distance moves K(x,x) by ~1e-8
         tol = (1e-7, 1e-7)
+    if case.get("threshold"):
+        tol = (1e-4, 1e-4)  # small systems: CG ends within n steps (observed <= 6e-6 in these cells)
     if case.get("large_cg"):
         tol = (2e-4, 2e-4)  # observed floor of converged CG on these systems: 1e-5; a solve stopped at 1e-3 is off by >1e-3
     ctol = tol
-    cls = ("cg" if iterative else "chol") + ("+love" if sd.get("fast_pred_var") else "") + ("+lazy" if sd.get("lazily_evaluate_kernels", True) else "+eager")
+    cls = ("cg" if iterative else "chol") + ("+love" if sd.get("fast_pred_var") else "") + ("+lazy" if sd.get("lazily_evaluate_kernels", True) else "+eager") + (":threshold=" + case["threshold"] if case.get("threshold") else "")
     got_mean = out.mean.reshape(*out.mean.shape[: len(out.mean.shape) - (2 if mt else 1)], -1)
     ctx.close("posterior_mean", got_mean, ref_mean.expand(got_mean.shape), tol, cls=cls + ":mean")
     with torch.no_grad():
@@ -384,7 +398,9 @@ def _run_case(case, ctx):
     t = case.get("multitask", {}).get("t", 1)
     sd = dict(case["settings"])
     joint = (n + ns) * t
-    sd["max_eager_kernel_size"] = joint + 5 if sd["max_eager_kernel_size"] == "above" else max(1, joint - 1)
+    sd["max_eager_kernel_size"] = joint if sd["max_eager_kernel_size"] == "equal" else (joint + 5 if sd["max_eager_kernel_size"] == "above" else max(1, joint - 1))
+    if case.get("threshold"):
+        sd["max_cholesky_size"] = {"n": n * t, "n-1": n * t - 1, "ns": ns * t, "ns-1": ns * t - 1, "joint": joint, "joint-1": joint - 1}[case["threshold"]]
     _ST["case"] = case
     _ST["settings_at_call"] = sd
     _ST["nontrivial"] = False
